@@ -9,6 +9,8 @@ if p in ("C16", "C17"):
     print(p.lower() + " tsres")  # + the typesystem-resolver interleaving sub-harness
 elif p in ("C14", "C15"):
     print(p.lower() + " memw")  # + concurrent writers / paginating readers on the instrumented memory datastore
+elif p == "C26":
+    print("c26 authzx")  # + the real authorizer under the scheduler with a cancelling thread
 elif os.path.isdir(os.path.join(root, "h/cmd", p.lower())):
     print(p.lower())
 elif p in V:
